@@ -96,6 +96,59 @@ struct Session {
     kind: &'static str,
 }
 
+fn fnv(bytes: &[u8]) -> u64 {
+    let mut hash = 0xcbf29ce484222325u64;
+    for b in bytes {
+        hash ^= *b as u64;
+        hash = hash.wrapping_mul(0x100000001b3);
+    }
+    hash
+}
+
+/// the live documents of an on-disk index, segment by segment in searcher order, as shipped positions
+/// (read with tantivy directly, not through the library under test)
+fn layout(index_dir: &std::path::Path, key_pos: &BTreeMap<String, usize>) -> Option<Vec<Vec<usize>>> {
+    let index = tantivy::Index::open_in_dir(index_dir).ok()?;
+    let field = index.schema().get_field("data")?;
+    let reader = index.reader().ok()?;
+    let searcher = reader.searcher();
+    let mut out = Vec::new();
+    for seg in searcher.segment_readers() {
+        let store = seg.get_store_reader(0).ok()?;
+        let mut docs = Vec::new();
+        for d in 0..seg.max_doc() {
+            if seg.is_deleted(d) {
+                continue;
+            }
+            let doc = store.get(d).ok()?;
+            if let Some(tantivy::schema::Value::Bytes(b)) = doc.get_first(field) {
+                docs.push(*key_pos.get(&format!("{:016x}", fnv(b))).unwrap_or(&0));
+            }
+        }
+        if !docs.is_empty() {
+            out.push(docs);
+        }
+    }
+    Some(out)
+}
+
+/// phrases on which two documents can tie: a prefix of a word of the one that is also a prefix of a word of the other
+fn shared_prefixes(a: &[String], b: &[String]) -> Vec<String> {
+    let mut out = BTreeSet::new();
+    for x in a {
+        for y in b {
+            let n = x.chars().zip(y.chars()).take_while(|(p, q)| p == q).count().min(7);
+            for k in 1..=n {
+                let p: String = x.chars().take(k).collect();
+                if typable_word(&p) {
+                    out.insert(p);
+                }
+            }
+        }
+    }
+    out.into_iter().collect()
+}
+
 pub fn trace(args: &[String]) -> i32 {
     quiet_panics();
     let out_path = arg_value(args, "--out").expect("--out");
@@ -137,6 +190,7 @@ pub fn trace(args: &[String]) -> i32 {
     let mut tie_phrases = BTreeSet::new();
     let mut lookups = 0usize;
     let mut problems: Vec<Value> = Vec::new();
+    let mut layouts: Vec<(usize, PathBuf, Vec<Vec<usize>>)> = Vec::new();
     for (sid, s) in plan.iter().enumerate() {
         if s.kind == "disk_rebuild" {
             // the stored hash no longer matches: the tool must rebuild into the existing index
@@ -183,6 +237,15 @@ pub fn trace(args: &[String]) -> i32 {
             problems.push(json!({"session": sid, "kind": s.kind, "what": if rebuilt { "rebuilt although the directory was current" } else { "did not rebuild" }}));
         }
         out.line(&json!({"ev": "session", "id": sid, "kind": s.kind, "docs": docs.len()}));
+        if s.kind != "memory" && rebuilt {
+            // keep a copy of every freshly built on-disk index and read its layout
+            let copy = work.join(format!("copy{}", sid));
+            crate::c15::copy_dir(&home.join("facts"), &copy.join("facts"));
+            if let Some(l) = layout(&copy.join("facts/index"), &key_pos) {
+                out.line(&json!({"ev": "layout", "s": sid, "segments": l.len(), "flat": l.iter().flatten().copied().collect::<Vec<usize>>()}));
+                layouts.push((sid, copy, l));
+            }
+        }
         for (qi, q) in qs.iter().enumerate() {
             let o = run_query(&db, q, true);
             let lk: Vec<Value> = o
@@ -228,10 +291,72 @@ pub fn trace(args: &[String]) -> i32 {
             out.line(&json!({"ev": "lookup", "s": sid, "q": qi + 1, "phrase": q, "win": win, "tie": tie, "full": full}));
         }
     }
+    // Layout-guided search for witnesses: where two on-disk builds order two documents differently, ask both (reopened
+    // from their copies) for every phrase on which those two documents can tie.
+    let mut extra: Vec<String> = Vec::new();
+    let mut layouts_differ = 0usize;
+    if layouts.len() >= 2 {
+        let flat = |l: &Vec<Vec<usize>>| l.iter().flatten().copied().collect::<Vec<usize>>();
+        let base = flat(&layouts[0].2);
+        let mut cand = BTreeSet::new();
+        for (_, _, l) in layouts.iter().skip(1) {
+            let f = flat(l);
+            if f == base {
+                continue;
+            }
+            layouts_differ += 1;
+            let pos_in: BTreeMap<usize, usize> = f.iter().enumerate().map(|(i, d)| (*d, i)).collect();
+            // adjacent pairs of the first layout that the other layout inverts (enough to witness any difference in order)
+            let mut pairs = 0;
+            for i in 0..base.len() {
+                for j in (i + 1)..base.len().min(i + 40) {
+                    if let (Some(a), Some(b)) = (pos_in.get(&base[i]), pos_in.get(&base[j])) {
+                        if a > b && base[i] >= 1 && base[j] >= 1 && base[i] <= shipped.len() && base[j] <= shipped.len() {
+                            for p in shared_prefixes(&shipped[base[i] - 1].1.tokens, &shipped[base[j] - 1].1.tokens) {
+                                cand.insert(p);
+                            }
+                            pairs += 1;
+                        }
+                    }
+                }
+                if pairs > 4000 || cand.len() > 3000 {
+                    break;
+                }
+            }
+        }
+        extra = cand.into_iter().filter(|p| !qs.contains(p)).take(3000).collect();
+        if !extra.is_empty() {
+            let nbase = qs.len();
+            for (k, (sid0, copy, _)) in layouts.iter().enumerate() {
+                std::env::set_var("XDG_DATA_HOME", copy);
+                let db = match Db::open() {
+                    Ok(db) => db,
+                    Err(_) => continue,
+                };
+                let sid = 100 + k;
+                out.line(&json!({"ev": "session", "id": sid, "kind": "disk_copy", "of": sid0, "docs": 0}));
+                for (qi, q) in extra.iter().enumerate() {
+                    let o = run_query(&db, q, true);
+                    let lk: Vec<Value> = o.events.iter().filter_map(|e| serde_json::from_str::<Value>(e).ok()).filter(|v| v["ev"] == "lookup").collect();
+                    let top = if lk.len() == 1 && o.results.len() == 1 && o.results[0].is_ok() { lk[0]["top"].as_array().cloned().unwrap_or_default() } else { Vec::new() };
+                    if top.is_empty() {
+                        continue; // not answered as a phrase at all (e.g. read as a unit): the same in every copy
+                    }
+                    lookups += 1;
+                    let best = top[0][0].as_str().unwrap().to_string();
+                    let tie: Vec<usize> = top.iter().filter(|t| t[0].as_str() == Some(best.as_str())).map(|t| *key_pos.get(t[1].as_str().unwrap()).unwrap_or(&0)).collect();
+                    out.line(&json!({"ev": "lookup", "s": sid, "q": nbase + qi + 1, "phrase": q, "win": tie[0], "tie": tie, "full": tie.len() < top.len() || top.len() < 8}));
+                }
+            }
+            std::env::set_var("XDG_DATA_HOME", &home);
+        }
+    }
+    let nphrases = qs.len() + extra.len();
     out.finish();
     println!(
         "{}",
-        json!({"phrases": qs.len(), "sessions": plan.iter().map(|s| s.kind).collect::<Vec<_>>(), "lookups": lookups,
+        json!({"phrases": nphrases, "witness_phrases": extra.len(), "layouts": layouts.len(), "layouts_differ": layouts_differ,
+               "segments": layouts.iter().map(|l| l.2.len()).collect::<Vec<_>>(), "sessions": plan.iter().map(|s| s.kind).collect::<Vec<_>>(), "lookups": lookups,
                "tie_phrases": tie_phrases.len(), "order_mismatch": order_mismatch, "shipped": shipped.len(), "problems": problems,
                "sample_tie_phrases": tie_phrases.iter().take(6).map(|i| qs[*i].clone()).collect::<Vec<_>>()})
     );
